@@ -298,8 +298,35 @@ def record_types():
     return out
 
 
+def prologue_declares_records():
+    """through convert() with the standard prologue: every record variable passed to a library procedure (display, play, pid) is
+    declared in the same output, whatever the spelling of the statement that needs it (spaced, packed `PLAYA$`, after THEN)"""
+    from coco.b09.compiler import convert
+
+    def run():
+        res = []
+        progs = ["PLAY A$", "PLAYA$", 'PLAY"CDE"', "IF A=1 THENPLAYA$", "SOUND 1,1", "SOUND1,1", "IF A=1 THEN SOUND1,1", "POKE 65497,0", "POKE65497,0", "CLS", "CLS3", "HSCREEN2",
+                 "HBUFF 1,10", "HBUFF1,10", "IF A=1 THENHBUFF1,10", "HCOLOR1,2", "PRINT@3,A$", "LOCATE1,2", "A=1", "HBUFF1,10:HGET(0,0)-(1,1),1", "HBUFF 1,10:HPUT(0,0)-(1,1),1,PSET"]   # (HGET / HPUT without any HBUFF is an erroneous program: C04 ties the pid prologue to HBUFF)
+        for src in progs:
+            try:
+                text = convert("10 %s\n" % src)
+            except Exception as e:  # noqa
+                continue            # refused spellings are not this obligation's business
+            body = re.sub(r'"[^"]*"', '""', text)
+            bad = []
+            for rec, decl in (("display", r"(?im)^dim display\s*:\s*display_t"), ("play", r"(?im)^dim play\s*:\s*play_t"), ("pid", r"(?im)^dim pid\s*:\s*integer")):
+                used = re.search(r"(?i)\brun \w+\([^)\n]*\b%s\b" % rec, body) or re.search(r"(?m)^\d* ?%s\." % rec, body)
+                if used and not re.search(decl, body):
+                    bad.append("%s is passed to a library procedure but never declared" % rec)
+                if rec == "play" and re.search(r"(?m)^(?:\d+ )?play\.\w+ :=", body) and not re.search(decl, body):
+                    bad.append("play.<field> is assigned but play is never declared")
+            res.append(ob("prologue/%s" % src, not bad, "every record argument has its declaration in the prologue", bad or "declared"))
+        return res
+    return guarded("prologue", run)
+
+
 def obligations():
-    return existence() + kinds_python_side() + library_calls() + sized_strings_stay_sized() + record_types()
+    return existence() + kinds_python_side() + library_calls() + sized_strings_stay_sized() + record_types() + prologue_declares_records()
 
 
 RULE_KINDS = [
